@@ -235,7 +235,10 @@ func c06Run(t *testing.T, c c06Case) (out c06Outcome, verr error, herr error) {
 			// (b) completeness of a direction that ends by its own clean EOF / error after its last message
 			switch c.Term {
 			case "srcEOF", "srcErr":
-				if !initStalled && len(gotInit) < srcBefore {
+				// (with the source face stalled the forwarder learns of the source's end through its blocked sync-state Send
+				// failing with io.EOF - as grpc-go does once the status has arrived - and stops at once: buffered messages
+				// that it had not relayed yet are dropped with the stream, the initiator re-opens from its acknowledged level)
+				if !initStalled && !srcStalled && len(gotInit) < srcBefore {
 					verr = fmt.Errorf("source ended (%s) after %d messages but the initiator got only %d", c.Term, srcBefore, len(gotInit))
 				}
 			case "initEOF", "initErr":
